@@ -9,7 +9,10 @@ execution, seeded random joint schedules, task retry.  Oracles: per-run bookkeep
 from __future__ import annotations
 
 import copy
+import datetime as dt
 import random
+
+import numpy as np
 
 from .. import gen
 from ..core import Check, jdigest, load_known, match_known, result_template
@@ -63,9 +66,34 @@ class C08(Check):
         if narrow:
             cfg["noise"]["init_position_std_km"] = rng.choice([1.0, 5.0, 20.0])
             cfg["noise"]["init_velocity_std_km_p_sec"] = rng.choice([1e-4, 1e-3])
+        force_noise = None
+        if rng.random() < 0.12:
+            # initial orbit determination inside the order exploration: two co-located radars, two targets flying a few km apart (each radar is tasked to
+            # one and catches the other serendipitously), an unplanned impulse; after the detection the orbit is re-determined from the step's radar observations
+            step0 = rng.choice([60, 300, 600])
+            n0 = rng.randrange(6, 9)
+            start0 = gen.draw_start(rng, gen.EOP_FIRST, gen.EOP_LAST)
+            site = {"latitude": rng.uniform(-60, 60), "longitude": rng.uniform(-180, 180), "altitude": 0.1}
+            kind0 = rng.choice(["adv_radar", "radar"])
+            sens = [gen.ground_sensor(90001 + i, site["latitude"] + 0.01 * i, site["longitude"], site["altitude"],
+                                      gen.sensor_block(kind0, coarse=False, field_of_view={"fov_shape": "conic", "cone_angle": 30.0})) for i in range(2)]
+            st0 = gen.place_over_site(rng, site, start0, 0, rng.uniform(0, 360), rng.uniform(30, 80), rng.uniform(36000, 40000), "corotate")
+            off = np.array([rng.gauss(0, 1) for _ in range(3)])
+            off = off / np.linalg.norm(off) * rng.choice([2.0, 10.0, 40.0])
+            tgts = [gen.eci_target(10001, st0[:3], st0[3:]), gen.eci_target(10002, (np.array(st0[:3]) + off).tolist(), st0[3:])]
+            dvv = np.array([rng.gauss(0, 1) for _ in range(3)])
+            dvv = (dvv / np.linalg.norm(dvv) * 10 ** rng.uniform(-3, -2)).tolist()
+            ev0 = [{"scope": "agent_propagation", "scope_instance_id": rng.choice([10001, 10002]), "event_type": "impulse",
+                    "start_time": gen.fmt_ts(start0 + dt.timedelta(seconds=step0 * rng.randrange(1, 4) + rng.randrange(1, step0))), "thrust_vector": dvv, "thrust_frame": "eci", "planned": False}]
+            est0 = {"sequential_filter": {"name": "unscented_kalman_filter", "dynamics_model": "two_body", "alpha": 0.05, "beta": 2.0,
+                                          "maneuver_detection": {"name": "standard_nis", "threshold": rng.choice([0.01, 0.05])}, "initial_orbit_determination": True},
+                    "initial_orbit_determination": {"name": rng.choice(["lambert_universal", "lambert_battin"]), "minimum_observation_spacing": 60}}
+            cfg = gen.base_config(start0, step0, n0, [gen.engine_block(1, sens, tgts, "MunkresDecision")], model="two_body", seed=rng.randrange(1, 2**31), estimation=est0, events=ev0,
+                                  out_step=step0, background=True)
+            force_noise = "on"
         S, step, out, ncfg = time_info({"config": cfg})
         return {"config": cfg, "plan": [{"seconds": ncfg * step}], "schedule": {"name": "fifo"}, "job_seed": rng.randrange(2**31),
-                "sched_seed": rng.randrange(2**31), "noise": rng.choice(["on", "on", "off"])}
+                "sched_seed": rng.randrange(2**31), "noise": force_noise or rng.choice(["on", "on", "off"])}
 
     def sample_view(self, case):
         t = case["config"]["time"]
